@@ -567,7 +567,7 @@ impl Run<'_> {
                 );
                 self.violations.push(Violation { key: key.into(), what, replay: self.replay_json(&history[..=i]) });
                 self.corrupt = Some(key.to_string());
-                self.outcome = format!("violation:{key}");
+                self.outcome = format!("finding:{key}");
                 return;
             }
         }
@@ -653,7 +653,7 @@ impl Run<'_> {
                 describe_tables(&fresh.tables),
             );
             self.violations.push(Violation { key: key.into(), what, replay: self.replay_json(&history[..=i]) });
-            self.outcome = format!("violation:{key}");
+            self.outcome = format!("finding:{key}");
             if key != "C13/import-skipped-when-target-already-stored-misses-rollback" {
                 self.corrupt = Some(key.to_string());
             }
